@@ -26,7 +26,8 @@ def main():
     n = 0
     failures = []
     values = [None, 1, 1.5, 'x', [1, [2.0, 'é']], {'k': {'n': 2 ** 70}}, True, '\U0001f600 a b',
-              0, 0.0, False, '', [], {}, '\ud83d lone surrogate', -0.0, 1e300]
+              0, 0.0, False, '', [], {}, '\ud83d lone surrogate', -0.0, 1e300,
+              {'preface': 1, 'basics': {'z': 0, 'y': [{'b': 1, 'a': 2}]}, 'advanced': 3}]
     paths = ['/p/a b.txt', '/p/.dot', '/p/ü/o', '/q/x', '/q/caf\udce9 latin-1', '/q/z w', '/r/1',
              '/r/2']
 
@@ -169,6 +170,11 @@ def same(a, b, BFO, SBO, SO):
     if json.dumps([a.args, a.kwargs, a.return_value], sort_keys=True) != \
             json.dumps([b.args, b.kwargs, b.return_value], sort_keys=True):
         return 'args/kwargs/return value differ'
+    # dicts keep their insertion order and a caller that iterates a returned dict sees it: the value
+    # that comes back from the cache file must list its keys in the order the executed call did
+    if json.dumps([a.args, a.kwargs, a.return_value]) != \
+            json.dumps([b.args, b.kwargs, b.return_value]):
+        return 'dict key order of args/kwargs/return value differs'
     if isinstance(a, BFO):
         if (a.filename, a.file_comparison) != (b.filename, b.file_comparison) or \
                 a.file_comparison_result != b.file_comparison_result:
